@@ -187,7 +187,7 @@ def canonicalToks (a : Arch) (bytes : Nat) (savesFp : Bool) : List RTok :=
 
 /-- `tokenize (leafRule a)` -/
 def leafToks (a : Arch) : List RTok :=
-  [.label .cfa, .tok (spTok a), .tok (.lit 0), .tok .add,
+  [.label .cfa, .tok (if a.isMips then .dollar "sp" else .bare "sp"), .tok (.lit 0), .tok .add,
    .label .ra, .tok (if a.isMips then .dollar "ra" else .bare "lr")]
 
 /-- `ptr_auth_strip` of a recovered return address / frame pointer (ARM64 only) -/
